@@ -31,6 +31,8 @@ def main():
     ap.add_argument("--runs", type=int, default=None)
     ap.add_argument("--budget", type=float, default=None)
     ap.add_argument("--replay", default=None)
+    ap.add_argument("--algos", default=None, help="comma separated: restrict a run-level check (debugging aid)")
+    ap.add_argument("--envs", default=None)
     args = ap.parse_args()
     core.quiet_imports()
     import vopy  # noqa: F401
@@ -51,7 +53,12 @@ def main():
         if prop in RUN_LEVEL:
             from sim import runlevel
 
-            runlevel.run_check(prop, args.tier, master, n_runs=args.runs, budget_s=args.budget)
+            over = {}
+            if args.algos:
+                over["algos"] = args.algos.split(",")
+            if args.envs:
+                over["envs"] = args.envs.split(",")
+            runlevel.run_check(prop, args.tier, master, n_runs=args.runs, budget_s=args.budget, cfg_over=over or None)
         else:
             from sim import propchecks
 
